@@ -17,7 +17,9 @@ LEVEL = "proof"
 TRANSLATORS = ["gen_sym"]
 DRIVER = "drv_c01"
 
-OPS = None  # default op mix of ProgGen
+OPS = ["tensordot", "tensordot", "tensordot", "add", "sub", "transpose", "conj", "trace", "smul", "neg", "vdot", "add_leg",
+       "remove_leg", "moveaxis", "conj_blocks", "flip_signature", "copy", "consume_transpose", "matmul", "addmany",
+       "ncon", "einsum", "diag", "broadcast", "apply_mask", "fuse", "remove_zero_blocks"]
 
 
 def program_budget(ctx):
@@ -74,14 +76,26 @@ def run_model(ctx, g):
 def run_one(ctx, gen_kwargs, depth, check_access=True, tag="c01"):
     """generate + execute one program; compare with the model; returns the ProgGen."""
     rng = ctx.rng
-    g = tprog.ProgGen(rng, **gen_kwargs)
+    g = tprog.ProgGen(rng, ops=gen_kwargs.pop('ops', OPS), **gen_kwargs)
     t0 = time.time()
-    for _ in range(depth):
-        g.step()
-        if time.time() - t0 > 20:
-            ctx.count("case-time-limit")
-            break
+    from ..core import time_limit, CaseTimeout
+    try:
+        with time_limit(30):
+            for _ in range(depth):
+                g.step()
+                if time.time() - t0 > 15:
+                    ctx.count("case-time-limit")
+                    break
+    except CaseTimeout:
+        # a runaway case (e.g. a huge dense reference) is an infrastructure event, never a violation
+        ctx.count("program-timeout")
+        ctx.notes.append(f"program aborted by the 30 s wall-clock guard after {len(g.steps)} steps ({gen_kwargs})")
+        return g
     mod, idmap = run_model(ctx, g)
+    for oe in getattr(g, "oracle_errors", []):
+        ctx.count("oracle-reference-not-built:" + oe.split(":")[0])
+        if len(ctx.notes) < 10:
+            ctx.notes.append("oracle reference not built: " + oe)
     case_id = {"sym": gen_kwargs["symname"], "policy": gen_kwargs.get("policy"), "fusion": gen_kwargs.get("fusion"),
                "cplx": gen_kwargs.get("cplx"), "steps": [s.model for s in g.steps]}
     nontrivial = False
@@ -164,7 +178,7 @@ def access_consistent(g, a):
     yastn = g.yastn
     legs = a.get_legs(native=True)
     try:
-        dense = a.to_numpy()
+        dense = a.to_numpy(native=True)
     except Exception as e:  # noqa: BLE001
         return ("to_numpy", f"to_numpy raised {type(e).__name__}: {e}")
     if tuple(dense.shape) != tuple(sum(l.D) for l in legs) and not a.isdiag:
@@ -215,7 +229,7 @@ def access_consistent(g, a):
     tag = "nonsym" if len(keys) > 0 else "nonsym-empty"
     try:
         ns = a.to_nonsymmetric()
-        if not np.array_equal(ns.to_numpy(), dense):
+        if not np.array_equal(ns.to_numpy(), a.to_numpy()):
             return (tag, "to_nonsymmetric().to_numpy() differs from to_numpy()")
     except Exception as e:  # noqa: BLE001
         return (tag, f"to_nonsymmetric()/its to_numpy raised {type(e).__name__}: {e} (tensor with {len(keys)} blocks)")
